@@ -477,6 +477,14 @@ def skel_getUnpublishedOperations : List String :=
 def skel_sortOperations : List String :=
   ["sort.Slice(ops, func(i, j int) bool { if ops[i].TransactionTime != ops[j].TransactionTime { return ops[i].TransactionTime < ops[j].TransactionTime } return ops[i].TransactionNumber < ops[j].TransactionNumber })"]
 
+/-- pkg/versions/1_0/doctransformer/doctransformer/transformer.go:TransformDocument -/
+def skel_generic_TransformDocument : List String :=
+  ["docMetadata, err := metadata.New( metadata.WithIncludeUnpublishedOperations(v.includeUnpublishedOperations), metadata.WithIncludePublishedOperations(v.includePublishedOperations)). CreateDocumentMetadata(rm, info)", "if err != nil {", "  return nil, err", "}", "id, ok := info[document.IDProperty]", "if !ok {", "  return nil, error(...)", "}", "rm.Doc[document.IDProperty] = id", "result := &document.ResolutionResult{...}", "return result, nil"]
+
+/-- pkg/document/resolution.go:ResolutionResult -/
+def lit_tags_ResolutionResult : List String :=
+  ["Context interface{} json:\"@context\"", "Document Document json:\"didDocument\"", "DocumentMetadata Metadata json:\"didDocumentMetadata,omitempty\""]
+
 /-- pkg/versions/1_0/operationparser/method.go:ParseDID -/
 def skel_method_ParseDID : List String :=
   ["var err error", "withoutNamespace := strings.ReplaceAll(shortOrLongFormDID, namespace+didSeparator, \"\")", "posLongFormSeparator := strings.Index(withoutNamespace, longFormSeparator)", "if posLongFormSeparator == -1 {", "  return shortOrLongFormDID, nil, nil", "}", "endOfDIDPos := strings.LastIndex(shortOrLongFormDID, longFormSeparator)", "did := shortOrLongFormDID[0:endOfDIDPos]", "longFormDID := shortOrLongFormDID[endOfDIDPos+1:]", "createRequest, err := parseInitialState(longFormDID)", "if err != nil {", "  return \"\", nil, err", "}", "createRequestBytes, err := canonicalizer.MarshalCanonical(createRequest)", "if err != nil {", "  return \"\", nil, err", "}", "return did, createRequestBytes, nil"]
